@@ -644,6 +644,20 @@ impl DefaultPartitioner {
     }
 }
 
+#[cfg(feature = "verif_hooks")]
+impl DefaultPartitioner {
+    /// Verification hook: a default partitioner whose round-robin
+    /// counter starts at `cntr` (to reach counter values which would
+    /// otherwise need billions of sends).
+    #[must_use]
+    pub fn verif_with_counter(cntr: u32) -> DefaultPartitioner {
+        DefaultPartitioner {
+            hash_builder: BuildHasherDefault::default(),
+            cntr,
+        }
+    }
+}
+
 impl<H: BuildHasher> Partitioner for DefaultPartitioner<H> {
     #[allow(unused_variables)]
     fn partition(&mut self, topics: Topics<'_>, rec: &mut client::ProduceMessage<'_, '_>) {
